@@ -167,7 +167,8 @@ package cache
 //@   allowpanic
 //@   callee c.now() (r): modifies clock
 //@   at call os.OpenFile#1: requires flag & 512 == 0 && flag & 64 == 64
-//@   at call (*os.File).Truncate#1: requires err == nil
+//@   at call (*os.File).WriteString#1: bind gWrErr = err
+//@   at call (*os.File).Truncate#1: requires gWrErr == nil && size == len(entry)
 //@   at call os.Remove#1: requires err != nil && sameStr(name, file)
 //@   ensures result != nil && gOpenErr == nil ==> gCleanup[gFile] || failBudget < old(failBudget)
 //@   at call os.OpenFile#1: bind gOpenErr = err, gFile = name
